@@ -476,3 +476,35 @@ def scaleRows (w : K) (F : List (List K)) : List (List K) := F.map fun r => r.ma
 
 end listSums
 end QM.C19
+
+namespace QM.C19
+open QM
+section clipHelpers
+variable {K : Type} [Field K] [LinearOrder K] [IsStrictOrderedRing K]
+
+theorem lsum_map_split (l : List K) (eps c : K) :
+    lsum (l.map fun p => if p < eps then eps else p - c)
+      = ((l.filter fun x => decide (x < eps)).length : K) * eps
+        + (lsum (l.filter fun x => !decide (x < eps))
+            - ((l.filter fun x => !decide (x < eps)).length : K) * c) := by
+  induction l with
+  | nil => simp [lsum]
+  | cons p r ih =>
+    simp only [List.map_cons, lsum, List.foldr_cons] at ih ⊢
+    rw [ih]
+    by_cases h : p < eps
+    · simp [h, List.filter_cons, lsum]; ring
+    · simp [h, List.filter_cons, lsum]; ring
+
+theorem filter_lengths (l : List K) (eps : K) :
+    (l.filter fun x => !decide (x < eps)).length = l.length - (l.filter fun x => decide (x < eps)).length := by
+  induction l with
+  | nil => rfl
+  | cons p r ih =>
+    by_cases h : p < eps
+    · simp [h, List.filter_cons, ih]
+    · have hle := List.length_filter_le (fun x => decide (x < eps)) r
+      simp [h, List.filter_cons, ih]; omega
+
+end clipHelpers
+end QM.C19
